@@ -33,6 +33,7 @@ type e2eScn struct {
 	voucherAfter int
 	fault        string // "", "cut-restart-initiator", "cut-restart-responder"
 	faultAtLimit int    // index into limits at which the fault is applied
+	faultAtOpen  bool   // apply the fault while the responder is force-paused, before any block moved
 }
 
 func (s e2eScn) String() string {
@@ -40,8 +41,8 @@ func (s e2eScn) String() string {
 	if s.pull {
 		dir = "pull"
 	}
-	return fmt.Sprintf("%s dups=%v depthLimit=%d customStore=%v forcePause=%v limits=%v finalization=%v pauseAfter=%d voucherAfter=%d fault=%q@%d",
-		dir, s.dups, s.depthLimit, s.customStore, s.forcePause, s.limits, s.reqFinal, s.pauseAfter, s.voucherAfter, s.fault, s.faultAtLimit)
+	return fmt.Sprintf("%s dups=%v depthLimit=%d customStore=%v forcePause=%v limits=%v finalization=%v pauseAfter=%d voucherAfter=%d fault=%q@%d atOpen=%v",
+		dir, s.dups, s.depthLimit, s.customStore, s.forcePause, s.limits, s.reqFinal, s.pauseAfter, s.voucherAfter, s.fault, s.faultAtLimit, s.faultAtOpen)
 }
 
 const e2eCaseTimeout = 3 * time.Second
@@ -170,6 +171,33 @@ func runE2E(t *rapid.T, scn e2eScn, w *e2eWorld, pl payload, sel datamodel.Node,
 				} else {
 					time.Sleep(25 * time.Millisecond)
 				}
+				if scn.faultAtOpen && scn.fault != "" {
+					ctlMu.Lock()
+					faultDone = true
+					ctlMu.Unlock()
+					logf("fault: cutting the link while force-paused (no block moved yet), then %s", scn.fault)
+					_ = w.mn.DisconnectPeers(a.host.ID(), b.host.ID())
+					_ = w.mn.UnlinkPeers(a.host.ID(), b.host.ID())
+					time.Sleep(5 * time.Millisecond)
+					_, _ = w.mn.LinkPeers(a.host.ID(), b.host.ID())
+					// the restart re-validates without the forced pause
+					b.val.Default = dbl.Outcome{Result: datatransfer.ValidationResult{Accepted: true, DataLimit: first.DataLimit, RequiresFinalization: scn.reqFinal}}
+					var err error
+					switch scn.fault {
+					case "cut-restart-initiator":
+						err = a.mgr.RestartDataTransferChannel(w.ctx, chid)
+					case "cut-restart-responder":
+						err = b.mgr.RestartDataTransferChannel(w.ctx, chid)
+					case "process-restart-initiator":
+						a.restartProcess(t, w.ctx)
+						err = a.mgr.RestartDataTransferChannel(w.ctx, chid)
+					case "process-restart-responder":
+						b.restartProcess(t, w.ctx)
+						err = b.mgr.RestartDataTransferChannel(w.ctx, chid)
+					}
+					logf("restart returned %v", err)
+					return
+				}
 				err := b.mgr.UpdateValidationStatus(w.ctx, chid, datatransfer.ValidationResult{Accepted: true, DataLimit: first.DataLimit, RequiresFinalization: scn.reqFinal})
 				logf("forced pause released: %v", err)
 			}()
@@ -266,6 +294,9 @@ func runE2E(t *rapid.T, scn e2eScn, w *e2eWorld, pl payload, sel datamodel.Node,
 		return fail("C01/responder-not-settled", "initiator reports Completed but the responder's channel is %s", st)
 	}
 	bes := b.eventsOf(chid)
+	if bes[len(bes)-1].status != datatransfer.Completed && scn.fault == "process-restart-responder" && b.completeSentInEarlierLifetime(a.host.ID(), chid.ID) {
+		return fail("C01/responder-crash-between-complete-send-and-record", "the responder process was replaced after it had sent its final Complete but before it recorded it: the initiator is Completed, the responder ended %s", datatransfer.Statuses[bes[len(bes)-1].status])
+	}
 	if bes[len(bes)-1].status != datatransfer.Completed {
 		return fail("C01/responder-not-completed", "initiator reports Completed but the responder ended %s (%q)", datatransfer.Statuses[bes[len(bes)-1].status], bes[len(bes)-1].vec.Message)
 	}
@@ -303,6 +334,25 @@ func runE2E(t *rapid.T, scn e2eScn, w *e2eWorld, pl payload, sel datamodel.Node,
 	logMu.Lock()
 	defer logMu.Unlock()
 	return "completed", "", "", log
+}
+
+// faultKinds lists the faults that may be applied to a scenario.
+func faultKinds(scn e2eScn, sp *stats.Prop) []string {
+	kinds := []string{"cut-restart-initiator", "cut-restart-responder"}
+	if scn.pull {
+		kinds = append(kinds, "process-restart-responder")
+	} else {
+		// Known finding C01/responder-crash-between-complete-send-and-record: on a push
+		// the responder's pause is applied asynchronously by graphsync, so the transfer
+		// may be finishing while the responder process is replaced. That input class is
+		// excluded by construction (and counted) so that the search goes on behind it.
+		sp.Class("excluded_known_push_responder_process_restart")
+	}
+	if !(scn.customStore && scn.pull) {
+		// options passed to OpenPull live in memory only: a restarted initiator cannot know the per-channel store
+		kinds = append(kinds, "process-restart-initiator")
+	}
+	return kinds
 }
 
 // TestC01_E2E: two complete nodes in one process.
@@ -357,14 +407,13 @@ func TestC01_E2E(t *testing.T) {
 				last = l
 			}
 			if len(scn.limits) > 0 && rapid.IntRange(0, 2).Draw(t, "fault") == 0 {
-				kinds := []string{"cut-restart-initiator", "cut-restart-responder", "process-restart-responder"}
-				if !(scn.customStore && scn.pull) {
-					// options passed to OpenPull live in memory only: a restarted initiator cannot know the per-channel store
-					kinds = append(kinds, "process-restart-initiator")
-				}
-				scn.fault = rapid.SampledFrom(kinds).Draw(t, "faultKind")
+				scn.fault = rapid.SampledFrom(faultKinds(scn, sp)).Draw(t, "faultKind")
 				scn.faultAtLimit = rapid.IntRange(0, len(scn.limits)-1).Draw(t, "faultAt")
 			}
+		}
+		if scn.forcePause && scn.fault == "" && rapid.IntRange(0, 1).Draw(t, "faultAtOpen") == 0 {
+			scn.fault = rapid.SampledFrom(faultKinds(scn, sp)).Draw(t, "faultKindAtOpen")
+			scn.faultAtOpen = true
 		}
 		if rapid.IntRange(0, 3).Draw(t, "userPause") == 0 {
 			scn.pauseAfter = rapid.IntRange(1, 4).Draw(t, "pauseAfter")
@@ -409,6 +458,9 @@ func TestC01_E2E(t *testing.T) {
 			}
 			if strings.HasPrefix(scn.fault, "process") {
 				sp.Class("completed_after_process_restart")
+			}
+			if scn.faultAtOpen {
+				sp.Class("completed_after_restart_before_first_block")
 			}
 			if scn.reqFinal {
 				sp.Class("completed_with_finalization")
